@@ -241,6 +241,42 @@ def rule_r3_r4(ck, prog, cg, roles):
                 exported = {c_ for v_ in exported for c_ in g.canon_var(v_)}
                 if pushed and exported and pushed & exported:
                     ck.holds('C01.R3', lf, 'taken-pointer-exported', None, 'the taken element is appended to the container handed to Export')
+                    # the view handed to Export covers exactly what was taken: its length is size() of that container (or the count
+                    # that was handed to Consume, which is the number of callbacks made), never capacity() or another quantity
+                    for ep in exports:
+                        if g.unit_ctx(ep.ctx, exports) is not g.unit_ctx(cp.ctx, exports):
+                            continue
+                        roots = [(ep.f, ep.n['i'], ep.ctx)]
+                        for a in ep.n.get('args', []):
+                            if a is not None and a >= 0:
+                                roots += [(sf, sn['i'], sc) for (sf, sn, sc) in origins(g, rd, ep.f, a, ep.ctx)]
+                        spans = []
+                        for (sf, ri, sc) in roots:
+                            for j in list(sf.subtree(ri)) + [ri]:
+                                m = sf.nodes[j]
+                                if m['k'] == 'construct' and 'span<' in (m.get('c') or '') and len(m.get('args', [])) == 2 and (sf, m, sc) not in spans:
+                                    spans.append((sf, m, sc))
+                        for (sf, m, sc) in spans:
+                            ln = strip_casts(sf, m['args'][1])
+                            verdict = None
+                            if ln['k'] == 'call' and ln.get('obj') is not None and sf.nodes[ln['obj']]['k'] == 'ref':
+                                nm = strip_targs(ln.get('c', '')).rsplit('::', 1)[-1]
+                                same = bool(set(g.canon_var(sf.nodes[ln['obj']].get('id'))) & exported)
+                                if nm == 'size' and same:
+                                    verdict = True
+                                elif nm in ('capacity', 'max_size') or (nm == 'size' and not same):
+                                    verdict = False
+                            elif ln['k'] == 'ref':
+                                cnt_src = {(id(a_), b_['i']) for (a_, b_, c_) in origins(g, rd, cp.f, cp.n['args'][0], cp.ctx)}
+                                len_src = {(id(a_), b_['i']) for (a_, b_, c_) in origins(g, rd, sf, ln['i'], sc)}
+                                if cnt_src and len_src == cnt_src:
+                                    verdict = True
+                            if verdict is None:
+                                ck.inconclusive('C01.R3', sf, 'export-view-covers-the-batch', m, 'the length of the view handed to Export is neither size() of the batch container nor the consumed count')
+                            else:
+                                ck.verdict(verdict, 'C01.R3', sf, 'export-view-covers-the-batch', m, 'the view handed to Export is (data(), size()) of the batch container' if verdict else
+                                           'the view handed to Export is not as long as the batch that was taken from the queue (%s): the exporter reads elements that were never filled, or misses some' %
+                                           strip_targs(ln.get('c', ln.get('name', '')) or ''))
                     # the container must be fresh in every iteration: between one Export and the next Consume it is
                     # re-constructed or cleared, otherwise the previous batch is exported again
                     vid = list(pushed & exported)[0]
